@@ -540,6 +540,22 @@ def r6_photon_cube_saved_whole(ctx):
         if dotted(recv) != "self._array":
             ok, bad = False, recv
     ctx.check(ok, td.qual + "#cube-whole", "the cube is serialised from self._array itself" if ok else (f"the cube is serialised from `{norm(bad)[:60]}`, not from the stored array: coordinates / entries it carries are missing from the file and the loaded photon differs from the saved one" if bad is not None else "the multi-wavelength photon is not serialised with to_dict()"), where=td, node=calls[0] if calls else td.node)
+    # decided per path: a multi-wavelength photon (whatever the number of wavelengths) is written under 'array_3d',
+    # a 2-D photon under 'array_2d' - the container keeps its kind through save / load
+    from sa.paths import enumerate_paths
+
+    for q_ in enumerate_paths(td.node.body):
+        if q_.exit == "raise":
+            continue
+        is3d = any(pol and "DataArray" in t and "isinstance(self._array" in t for t, pol in q_.cond_texts())
+        is2d = any(pol and "np.ndarray" in t and "isinstance(self._array" in t for t, pol in q_.cond_texts())
+        keys_ = {k_ for k_ in q_.env if k_.startswith("dct[")}
+        if is3d:
+            okk = "dct['array_3d']" in keys_ and "dct['array_2d']" not in keys_
+            ctx.check(okk, td.qual + "#kind:3d", "a multi-wavelength photon is always written as 'array_3d'" if okk else f"on the path {q_.cond_texts()[-2:]} a multi-wavelength photon is written as {sorted(keys_)}: it is loaded back as a photon of another kind (wavelength coordinate lost)", where=td, node=q_.exit_node or td.node)
+        elif is2d:
+            okk = "dct['array_2d']" in keys_ and "dct['array_3d']" not in keys_
+            ctx.check(okk, td.qual + "#kind:2d", "a 2-D photon is always written as 'array_2d'" if okk else f"a 2-D photon is written as {sorted(keys_)}", where=td, node=q_.exit_node or td.node)
     fdc = [c for c in calls_in(fd.node) if call_name(c).endswith("DataArray.from_dict")]
     ok = len(fdc) >= 1
     ctx.check(ok, fd.qual + "#cube-whole", "rebuilt with DataArray.from_dict" if ok else "the cube is not rebuilt with DataArray.from_dict", where=fd, node=fdc[0] if fdc else fd.node)
